@@ -32,8 +32,29 @@ CORPUS = [
 REQUIRED = ["rDecidePark", "rDecideReady", "rForward", "rScanFwd", "wSend", "wFinish"]
 
 
+import collections
+
+Point3 = collections.namedtuple("Point3", ["a", "b", "c"])
+
+
+class TaggedList(list):
+    """a subclass of list with an attribute: searched and resolved like a list, must stay what it is"""
+
+    def __init__(self, *a, tag="t0"):
+        super().__init__(*a)
+        self.tag = tag
+
+
+class Registry(dict):
+    pass
+
+
+CLASSES = {"list": list, "TaggedList": TaggedList, "tuple": tuple, "Point3": Point3, "dict": dict, "OrderedDict": collections.OrderedDict,
+           "Registry": Registry}
+
+
 def gen_tree(rng, futs, depth=0):
-    """Random argument tree: ('v', x) | ('f', j) | ('l', [...]) | ('t', [...]) | ('d', {...})."""
+    """Random argument tree: ('v', x) | ('f', j) | ('l', [...], cls) | ('t', [...], cls) | ('d', {...}, cls); cls = Python class."""
     r = rng.random()
     if depth >= 3:
         r *= 0.5
@@ -42,44 +63,57 @@ def gen_tree(rng, futs, depth=0):
     if r < 0.5 and futs:
         return ("f", rng.randrange(len(futs)))
     if r < 0.75:
-        return ("l", [gen_tree(rng, futs, depth + 1) for _ in range(rng.randrange(0, 4))])
+        return ("l", [gen_tree(rng, futs, depth + 1) for _ in range(rng.randrange(0, 4))], "TaggedList" if rng.random() < 0.2 else "list")
     if r < 0.88:
-        return ("t", [gen_tree(rng, futs, depth + 1) for _ in range(rng.randrange(0, 3))])
-    return ("d", {"k%d" % i: gen_tree(rng, futs, depth + 1) for i in range(rng.randrange(0, 3))})
+        if rng.random() < 0.25:
+            return ("t", [gen_tree(rng, futs, depth + 1) for _ in range(3)], "Point3")
+        return ("t", [gen_tree(rng, futs, depth + 1) for _ in range(rng.randrange(0, 3))], "tuple")
+    return ("d", {"k%d" % i: gen_tree(rng, futs, depth + 1) for i in range(rng.randrange(0, 3))}, rng.choice(["dict", "dict", "OrderedDict", "Registry"]))
 
 
 def build(tree, futs):
-    k, x = tree
+    k, x = tree[0], tree[1]
     if k == "v":
         return x
     if k == "f":
         return futs[x]
     if k == "l":
-        return [build(t, futs) for t in x]
+        return TaggedList([build(t, futs) for t in x], tag="t%d" % len(x)) if tree[2] == "TaggedList" else [build(t, futs) for t in x]
     if k == "t":
-        return tuple(build(t, futs) for t in x)
-    return {kk: build(t, futs) for kk, t in x.items()}
+        return Point3(*[build(t, futs) for t in x]) if tree[2] == "Point3" else tuple(build(t, futs) for t in x)
+    return CLASSES[tree[2]]((kk, build(t, futs)) for kk, t in x.items())
+
+
+def _cls(d, name, plain):
+    if name != plain:
+        d["cls"] = name
+    return d
 
 
 def to_json(tree):
-    k, x = tree
+    k, x = tree[0], tree[1]
     if k in ("v", "f"):
         return {k: x}
-    if k in ("l", "t"):
-        return {k: [to_json(t) for t in x]}
-    return {"d": [[kk, to_json(t)] for kk, t in x.items()]}
+    if k == "l":
+        return _cls({"l": [to_json(t) for t in x]}, tree[2], "list")
+    if k == "t":
+        return _cls({"t": [to_json(t) for t in x]}, tree[2], "tuple")
+    return _cls({"d": [[kk, to_json(t)] for kk, t in x.items()]}, tree[2], "dict")
 
 
 def canon_val(v, futs):
-    """Result of _update_futures_in_input rendered as a tree with remaining futures marked."""
+    """Result of _update_futures_in_input rendered as a tree with remaining futures marked and the class of every container."""
     if isinstance(v, Future):
         return {"f": futs.index(v)}
     if isinstance(v, list):
-        return {"l": [canon_val(x, futs) for x in v]}
+        d = _cls({"l": [canon_val(x, futs) for x in v]}, type(v).__name__, "list")
+        if isinstance(v, TaggedList) and getattr(v, "tag", None) != "t%d" % len(v):
+            d["cls"] = "TaggedList without its attribute"
+        return d
     if isinstance(v, tuple):
-        return {"t": [canon_val(x, futs) for x in v]}
+        return _cls({"t": [canon_val(x, futs) for x in v]}, type(v).__name__, "tuple")
     if isinstance(v, dict):
-        return {"d": [[k, canon_val(x, futs)] for k, x in v.items()]}
+        return _cls({"d": [[k, canon_val(x, futs)] for k, x in v.items()]}, type(v).__name__, "dict")
     return {"v": v}
 
 
